@@ -542,6 +542,17 @@ func eventsNamed(log []mon.Event, name string) []mon.Event {
 // same additive identity.
 func c03Twins(r *mon.Rand, isDur bool, v []float64, d []time.Duration) []tally.Buckets {
 	var out []tally.Buckets
+	// the same set extended by bounds that add nothing to the additive identity
+	// (a zero value bound; a duration and its negative): a longer set of which
+	// the spec is a prefix
+	if r.Bool() {
+		if isDur && len(d) >= 1 {
+			x := time.Duration(r.Range(1, 1000000))
+			out = append(out, tally.DurationBuckets(append(append([]time.Duration(nil), d...), x, -x)))
+		} else if !isDur && len(v) >= 1 {
+			out = append(out, tally.ValueBuckets(append(append([]float64(nil), v...), 0)))
+		}
+	}
 	if isDur {
 		if len(d) >= 2 {
 			for try := 0; try < 4 && len(out) < 2; try++ {
